@@ -5,7 +5,7 @@ import ast
 from typing import Dict, List, Optional, Set, Tuple
 
 from ..astutil import call_name, unparse, walk_shallow
-from ..cfg import CFG, CNode, LocalDefs, path_text as cfg_path_text
+from ..cfg import CFG, CNode, LocalDefs, expand_test, path_text as cfg_path_text
 from ..index import AnalysisError
 from ..obsmodel import (ROOT_CALL, Ev, ObsClassModel, ObsModel, alternatives, chains_in, dnf_text, is_pseudo, path_text,
                         producer_fields, template_text, walk_chain)
@@ -679,7 +679,7 @@ def r9_7(ctx: Ctx, om: ObsModel) -> None:
             for nd in ast.walk(fn.node):
                 # (a) inheritance block: if X.f is None / if not X.f : X.g = Y.h
                 if isinstance(nd, ast.If) and len(nd.body) == 1 and isinstance(nd.body[0], ast.Assign) and not nd.orelse:
-                    t = nd.test
+                    t = expand_test(_ld, nd.test)
                     probe = None
                     if isinstance(t, ast.Compare) and len(t.ops) == 1 and isinstance(t.ops[0], ast.Is) and \
                             isinstance(t.comparators[0], ast.Constant) and t.comparators[0].value is None:
